@@ -69,6 +69,14 @@ def c_enum_values(body):
     return out
 
 
+CASE_BRIDGE = """#[diplomat::bridge]
+mod ffi {
+    pub enum DataUnit { Mb, MB, Gb }
+    impl DataUnit { pub fn bump(self) -> DataUnit { self } }
+}
+"""
+
+
 def check(ctx, replay=None):
     build_harness()
     phase = standard_proof_phase(ctx, PROP, ["theories/Properties/C11.v"])
@@ -258,6 +266,15 @@ def check(ctx, replay=None):
                           " (Enums/Model.v no longer describes this backend); no variant with a wrong value was found"}, False)
     nontriv = len({json.dumps(vs) for vs in enums if any(v is not None for v in vs)})
     shutil.rmtree(os.path.join(d, "out_js"), ignore_errors=True)
+    # variant names that differ only in letter case: the JS (and Dart) formatter maps them to one name (recorded finding when present)
+    cpath = os.path.join(BUILD, "e2e", "c11case"); os.makedirs(cpath, exist_ok=True)
+    open(os.path.join(cpath, "lib.rs"), "w").write(CASE_BRIDGE)
+    q = e2e.run_tool("js", os.path.join(cpath, "lib.rs"), os.path.join(cpath, "out_js"))
+    if q.returncode == 0:
+        txt = open(os.path.join(cpath, "out_js", "DataUnit.mjs")).read()
+        if len(re.findall(r"static Mb\b", txt)) > 1:
+            ctx.violation("js-variant-case-collision", {"lib_rs": CASE_BRIDGE, "what": "enum DataUnit { Mb, MB, Gb }: both Mb and MB are emitted as the JS member `Mb`; the value table loses a "
+                                                        "key and, the enum being contiguous, every later name denotes the wrong discriminant"}, True)
     return batch_evidence(
         ctx, PROP, phase, goals, fails, len(goals), nontriv,
         "one generated bridge with %d enums (1..8 variants; explicit / implicit / negative / non-monotonic / permuted / i32-extreme "
